@@ -340,6 +340,7 @@ Proof.
     + tsimp. rewrite senders_rm. intros Hin. apply in_del_key in Hin. tauto.
     + autorewrite with chat. apply unread_soc. apply rm_sender_chan.
     + apply window_eq; tsimp; [apply reader_rm | apply incoming_rm].
+  - (* add sender, failed: no senders, nothing is registered *) intros Hreg. change (In (skey st0, s_ch st0) (senders s)) in Hreg. rewrite H2 in Hreg. destruct Hreg.
 Qed.
 
 End G3.
